@@ -158,7 +158,9 @@ def b1_b2(F, R, b):
     nsc = 0
     barinfo = 'transport::pci::bus::BarInfo'
     for desc, slot, bars, want in scenarios():
-        for command in (0x0, 0x1, 0x2, 0x3, 0x107, 0x407, 0x57f):     # every defined command bit (0-6, 8-10) occurs at least once
+        # every defined command bit (0-6, 8-10) occurs at least once; 0x87 / 0x8003 additionally have reserved bits set (bit 7, bit 15):
+        # the defined bits must still be handled - decoding disabled while sizing, defined bits restored (reserved bits are not compared)
+        for command in (0x0, 0x1, 0x2, 0x3, 0x107, 0x407, 0x57f, 0x87, 0x8003):
             nsc += 1
 
             def base_leaf(t, slot=slot):
@@ -177,7 +179,7 @@ def b1_b2(F, R, b):
                 continue
             if model.violations:
                 badv.setdefault('B1:decode', '%s slot %d command %#x: %s' % (desc, slot, command, model.violations[0]))
-            rest = model.restored()
+            rest = [r_ for r_ in model.restored() if not (int(str(r_[0]), 0) == 4 and (int(str(r_[1]), 0) & 0x077f) == (int(str(r_[2]), 0) & 0x077f))]
             if rest:
                 ev = err_variant(p.ret)
                 k = 'B1:restore:%s' % ('Err' if ev not in ('Ok',) else 'Ok')
